@@ -54,9 +54,33 @@ Theorem C19_intkey_cmp_order :
      (cmp_of vnummode (set_vnum64 x, 0) (set_vnum64 y, 0) = Lt <-> x > y)).
 Proof. split; [exact vnum_cmp_antisym|]. split; [exact vnum_cmp_trans|exact vnum_cmp_numeric]. Qed.
 Print Assumptions C19_intkey_cmp_order.
-(* PARTIAL: for real-number and compound keys antisymmetry / transitivity / equal-iff-identical / agreement with
-   numeric order / agreement of the cached 115-byte prefix are decided on key triples by the oracle of checks/C19.py
-   (model Keys.v compared with the implementation's static comparators), not proved. *)
+(* compound keys on byte strings (stored form: varint of the compound part, then the bytes): a strict total order on the
+   keys whose compound part is encodable - bytes lexicographically, then the compound part (greater first) *)
+Require Import IW.KV.KeysCompound_proofs.
+Theorem C19_compound_cmp_total_order :
+  (forall a b : ckey, ckey_cmp a b = CompOpp (ckey_cmp b a)) /\
+  (forall a b c : ckey, ckey_cmp a b = Lt -> ckey_cmp b c = Lt -> ckey_cmp a c = Lt) /\
+  (forall a b : ckey, ckey_cmp a b = Eq <-> proj1_sig a = proj1_sig b) /\
+  (forall a b : ckey, ckey_cmp a b = Lt <-> (bcmp (fst (proj1_sig b)) (fst (proj1_sig a)) = Lt
+                                            \/ (fst (proj1_sig b) = fst (proj1_sig a) /\ snd (proj1_sig a) > snd (proj1_sig b)))).
+Proof.
+  split; [exact compound_cmp_antisym|]. split; [exact compound_cmp_trans|]. split; [exact compound_cmp_eq_iff|exact compound_cmp_order].
+Qed.
+Print Assumptions C19_compound_cmp_total_order.
+(* the cached prefix: what _lx_sblk_cmp_key decides from the first 115 bytes of a node's lowest key (loading the complete
+   key when the cached part is inconclusive) is what the comparison with the complete stored key decides - for every stored
+   key and every look-up key, of any length *)
+Theorem C19_prefix_shortcut_plain : forall (skey kd : list Z) (kc : Z),
+  sgnc (sblk_cmp_key_full memcmp plain skey kd kc) = sgnc (cmp_keys memcmp plain skey kd kc).
+Proof. exact prefix_shortcut_plain. Qed.
+Print Assumptions C19_prefix_shortcut_plain.
+Theorem C19_prefix_shortcut_compound : forall (c : Z) (d kd : list Z) (kc : Z), 0 <= c < 2 ^ 63 ->
+  sgnc (sblk_cmp_key_full memcmp cmode (set_vnum64 c ++ d) kd kc) = sgnc (cmp_keys memcmp cmode (set_vnum64 c ++ d) kd kc).
+Proof. exact prefix_shortcut_compound. Qed.
+Print Assumptions C19_prefix_shortcut_compound.
+(* PARTIAL: for real-number keys (iwafcmp; with or without a compound part) and integer keys with a compound part,
+   antisymmetry / transitivity / equal-iff-identical / agreement with numeric order are decided on key triples by the oracle
+   of checks/C19.py (model Keys.v compared with the implementation's static comparators), not proved. *)
 
 Example C19_examples : atoi (dec (- 2 ^ 63)) = - 2 ^ 63 /\ hex2bin (bin2hex [0; 255; 26]) = [0; 255; 26] /\ set_vnum64 300 = [211; 2].
 Proof. vm_compute. repeat split; reflexivity. Qed.
